@@ -106,6 +106,9 @@ def run(tier: str, replay=None) -> int:
             tasks[nm] = [bad] if kind == "single" else ([good, bad] if kind == "second" else [bad, good])
             inj_total += 1
         tasks[f"EMPTY_{rd}"] = []   # an instruction without parts: one entry, no trees, no error
+        # instructions with many parts (11, 12, 25): part j's tree is the tree of text j
+        for npar in (11, 12, 25):
+            tasks[f"MANY{npar}_{rd}"] = ["{ RdV = RsV + %d; }" % (j_ * 3 + npar) for j_ in range(npar)]
         items = list(tasks.items())
         rng.shuffle(items)
         tasks = dict(items)
